@@ -484,13 +484,13 @@ type SpecFunc struct {
 }
 
 type Specs struct {
-	Funcs  map[string]*FuncContract
-	Order  []string
-	Stubs  map[string]*FuncContract
-	Lemmas []*Lemma
-	SFuncs map[string]*SpecFunc
-	Axioms []Clause // global axioms over spec functions (assumed; listed)
-	Scan   []string // occurrences of assume / trusted / inline / wraps for the evidence
+	Funcs       map[string]*FuncContract
+	Order       []string
+	Stubs       map[string]*FuncContract
+	Lemmas      []*Lemma
+	SFuncs      map[string]*SpecFunc
+	Axioms      []Clause          // global axioms over spec functions (assumed; listed)
+	Scan        []string          // occurrences of assume / trusted / inline / wraps for the evidence
 	GhostFields map[string]string // per-object ghost state: name -> type
 }
 
